@@ -729,11 +729,39 @@ def parse_items(p, fns, structs, impl_of, trait_arg, top=False):
                 p.expect(";")
             structs.append(Struct(name, fields))
             continue
-        if p.at("enum") or p.at("trait"):
+        if p.at("enum"):
+            p.i += 1
+            name = p.ident()
+            if p.at("<"):
+                skip_generics(p)
+            p.expect("{")
+            variants = []
+            while not p.at("}"):
+                if p.at("#"):
+                    p.skip_attribute()
+                    continue
+                vname = p.ident()
+                tys = []
+                if p.eat("("):
+                    while not p.at(")"):
+                        tys.append(p.parse_type())
+                        if not p.eat(","):
+                            break
+                    p.expect(")")
+                elif p.at("{"):
+                    raise ParseError("enum variant with named fields")
+                variants.append((vname, tys))
+                if not p.eat(","):
+                    break
+            p.expect("}")
+            st = Struct(name, [])
+            st.variants = variants
+            structs.append(st)
+            continue
+        if p.at("trait"):
             # skip the body
             while not p.at("{"):
                 p.i += 1
-            p.parse_block_skip = True
             skip_braces(p)
             continue
         if p.at("impl"):
